@@ -57,6 +57,11 @@ def main():
     if ap.returncode != 0:
         print("patch does not apply to", REPO, ap.stderr[-300:])
         return 2
+    # the evidence files are records of the unchanged tree: keep them as they are while the checks run on the patched tree
+    saved = {}
+    for c in args:
+        ep = os.path.join(VERIF, "evidence", f"{c}.json")
+        saved[ep] = open(ep, "rb").read() if os.path.exists(ep) else None
     try:
         for c in args:
             r = sh([os.path.join(VERIF, "check"), c], cwd=VERIF, timeout=3000)
@@ -75,6 +80,9 @@ def main():
             print(f"{c}: {'CAUGHT' if caught else 'missed'} ({kind}) {detail[:160]}")
     finally:
         sh(["git", "apply", "-R", patch], cwd=REPO)
+        for ep, data in saved.items():
+            if data is not None:
+                open(ep, "wb").write(data)
     json.dump(meta, open(meta_p, "w"), indent=1)
     return 0
 
